@@ -414,6 +414,10 @@ OUTCOMES = {
     'fail_after_binding': (['>>> mark("{id}")', '>>> leftover_zz = 41', '>>> print("a")', 'b'], 'failed', True),
     'fail_reads_leftover': (['>>> mark("{id}")', '>>> print(leftover_zz + 1)', '42'], 'failed', True),
     'pass_no_leftover': (['>>> mark("{id}")', '>>> print("leftover_zz" in globals())', 'False'], 'passed', True),
+    # the doctest reads globals of the module under test whose names a front end may also put into the namespace
+    # (the plugin's getfixture, entries of the xdoctest_namespace fixture): the module's own win
+    'pass_module_getfixture': (['>>> mark("{id}")', '>>> print(getfixture("x"))', 'module-level x'], 'passed', True),
+    'pass_module_limit': (['>>> mark("{id}")', '>>> print(LIMIT_ZZ)', '3'], 'passed', True),
 }
 
 # kinds whose only fault is a wrong want: with wants switched off (+IGNORE_WANT) they pass
@@ -423,6 +427,9 @@ LEFTOVER_READERS = ('fail_reads_leftover', 'pass_no_leftover')
 
 OUTCOME_PRELUDE = '''import os
 RUNLOG = []
+LIMIT_ZZ = 3
+def getfixture(name):
+    return "module-level " + name
 def mark(i):
     RUNLOG.append(i)
     with open(os.environ["XV_MARKFILE"], "a") as f:
